@@ -8,6 +8,7 @@ import (
 	"fmt"
 	"go/types"
 	"math"
+	"math/big"
 	"unsafe"
 )
 
@@ -33,6 +34,8 @@ func init() {
 		"vfFreeze":      vfFreeze,
 		"vfSymbolic":    func(fr *frame, a []value) value { return true },
 		"vfNote":        func(fr *frame, a []value) value { return nil },
+		"vfSpecSub": func(fr *frame, a []value) value { return vfSpecArith(fr, "-", a) },
+		"vfSpecMul": func(fr *frame, a []value) value { return vfSpecArith(fr, "*", a) },
 		"vfMapOrderMark": func(fr *frame, a []value) value {
 			fr.i.needPath("vfMapOrderMark")
 			fr.i.ps.mapMark = true
@@ -383,4 +386,57 @@ func (i *interpreter) frozenWrite(what string) {
 	}
 	// report with the innermost target function
 	i.abort("frozen-write", what+" into frozen (caller-owned or package-level) memory")
+}
+
+// vfSpecSub / vfSpecMul: specification-level (mathematical, unrounded) real
+// arithmetic for harness oracles. Operands are exact-domain values or concrete
+// finite floats (taken as the rationals they are); the result is the exact real
+// difference / product, whatever its size - unlike the float64 operators of the
+// code under test, which leave the exact domain when a result may round.
+func vfSpecArith(fr *frame, op string, a []value) value {
+	i := fr.i
+	i.needPath("vfSpec" + op)
+	st := i.st
+	toReal := func(v value) *Term {
+		switch v := v.(type) {
+		case float64:
+			if math.IsInf(v, 0) || math.IsNaN(v) {
+				panic(unsupported{"vfSpec arithmetic on a non-finite value"})
+			}
+			return st.RealOfFloat(v)
+		case sym:
+			if v.t.S.K == KReal {
+				return v.t
+			}
+		}
+		panic(unsupported{"vfSpec arithmetic on a value outside the exact domain"})
+	}
+	x, y := toReal(a[0]), toReal(a[1])
+	t := st.app(op, SReal, x, y)
+	if t.ri == nil {
+		ri := &realInfo{exact: true}
+		if t.Op == "realconst" {
+			ri.lo, ri.hi = t.R, t.R
+		} else if x.ri != nil && y.ri != nil && x.ri.lo != nil && y.ri.lo != nil && x.ri.hi != nil && y.ri.hi != nil {
+			if op == "-" {
+				ri.lo = new(big.Rat).Sub(x.ri.lo, y.ri.hi)
+				ri.hi = new(big.Rat).Sub(x.ri.hi, y.ri.lo)
+			} else {
+				c := []*big.Rat{new(big.Rat).Mul(x.ri.lo, y.ri.lo), new(big.Rat).Mul(x.ri.lo, y.ri.hi),
+					new(big.Rat).Mul(x.ri.hi, y.ri.lo), new(big.Rat).Mul(x.ri.hi, y.ri.hi)}
+				ri.lo, ri.hi = c[0], c[0]
+				for _, v := range c[1:] {
+					if v.Cmp(ri.lo) < 0 {
+						ri.lo = v
+					}
+					if v.Cmp(ri.hi) > 0 {
+						ri.hi = v
+					}
+				}
+			}
+		}
+		ri.s = maxScale // not meant to flow back into float64 arithmetic
+		t.ri = ri
+	}
+	return sym{t, types.Float64}
 }
